@@ -68,6 +68,10 @@ type Observers struct {
 	Fast     bool // C07: fast vs walk read paths + raw f entries
 	Proofs   bool // C03
 	Fresh    bool // re-check through a fresh handle on the same DB after prune/lvfo (C04, C14)
+	// NoStepWorkingHash: do not query WorkingHash after every step (it memoises node hashes and would hide
+	// a later read that memoises a wrong one); the working hash is then observed only by drawn read steps
+	// and by SaveVersion.
+	NoStepWorkingHash bool
 	Light    bool // cheap per-step subset (hash + working reads) for profiles that run a heavier check elsewhere
 }
 
@@ -97,6 +101,8 @@ type World struct {
 
 	icfg    Cfg
 	icfgSet bool
+	// F1Exposed: a hash-memoising read ran on the working tree while a non-default initial version was pending
+	F1Exposed bool
 	// F3Exposed: a rollback of versions was carried out with the index disabled while a label exists
 	F3Exposed bool
 	// IndexLabel models the version named by the persisted fast-index label (0 = never built)
@@ -267,6 +273,9 @@ func (w *World) Apply(op Op) (v *Violation) {
 	t := w.Tree
 	switch op.Kind {
 	case "set":
+		if op.V == nil {
+			op.V = []byte{} // JSON omits empty values; a nil value is the separate op "setnil"
+		}
 		_, had := w.WKV[string(op.K)]
 		upd, err := t.Set(op.K, op.V)
 		if err != nil || upd != had {
@@ -556,6 +565,12 @@ func (w *World) applyRead(op Op) *Violation {
 		w.Labels["read_while_dirty"] = true
 	}
 	switch op.Read {
+	case "proof", "membership", "nonmembership", "imhash":
+		if w.WorkingVersion() != w.Cur+1 && hasUnstamped(w.WRoot) {
+			w.F1Exposed = true
+		}
+	}
+	switch op.Read {
 	case "get":
 		_, _ = t.Get(op.K)
 	case "has":
@@ -591,9 +606,15 @@ func (w *World) applyRead(op Op) *Violation {
 			_, _ = t.GetVersionedProof(op.K, op.N)
 		}
 	case "hash":
-		_ = t.Hash()
+		h := t.Hash()
+		if vs, ok := w.Vers[w.Cur]; ok && w.Cur > 0 && !bytes.Equal(h, rhash(vs.Root, 0, false)) {
+			return w.viol("saved.hash", "Hash() %x want hash of version %d %x", h, w.Cur, rhash(vs.Root, 0, false))
+		}
 	case "workinghash":
-		_ = t.WorkingHash()
+		wh := t.WorkingHash()
+		if want := rhash(w.WRoot, w.WorkingVersion(), false); !bytes.Equal(wh, want) {
+			return w.viol("working.hash", "WorkingHash %x want %x (working version %d)", wh, want, w.WorkingVersion())
+		}
 	case "imhash":
 		_ = t.ImmutableTree.Hash()
 	case "getversioned":
@@ -801,11 +822,13 @@ func (w *World) Observe() (v *Violation) {
 			return v
 		}
 	}
-	if w.Obs.Hash || w.Obs.Light {
+	if (w.Obs.Hash && !w.Obs.NoStepWorkingHash) || w.Obs.Light {
 		wh := w.Tree.WorkingHash()
 		if want := rhash(w.WRoot, w.WorkingVersion(), false); !bytes.Equal(wh, want) {
 			return w.viol("working.hash", "WorkingHash %x want %x (working version %d)", wh, want, w.WorkingVersion())
 		}
+	}
+	if w.Obs.Hash || w.Obs.Light {
 		if w.Cur > 0 {
 			if vs, ok := w.Vers[w.Cur]; ok {
 				if h := w.Tree.Hash(); !bytes.Equal(h, rhash(vs.Root, 0, false)) {
@@ -1175,4 +1198,108 @@ func Replay(h History, obs Observers) (*World, *Violation, error) {
 		}
 	}
 	return w, nil, nil
+}
+
+// drainToEmpty (C12): remove every key, commit, delete all older versions: no node may remain.
+func (w *World) drainToEmpty() *Violation {
+	if w.Latest == 0 {
+		return nil
+	}
+	if w.Cur != w.Latest {
+		c := w.Cfg
+		if v := w.Apply(Op{Kind: "reopen", Cfg: &c}); v != nil {
+			return v
+		}
+		w.trackIndex(Op{Kind: "reopen"})
+	}
+	for _, k := range sortedKeys(w.WKV) {
+		if v := w.Apply(Op{Kind: "remove", K: []byte(k)}); v != nil {
+			return v
+		}
+	}
+	if v := w.Apply(Op{Kind: "save"}); v != nil {
+		return v
+	}
+	w.trackIndex(Op{Kind: "save"})
+	if v := w.Apply(Op{Kind: "prune", N: w.Latest - 1}); v != nil {
+		return v
+	}
+	if v := w.Observe(); v != nil {
+		return v
+	}
+	raw := w.rawDump()
+	for k, val := range raw {
+		switch k[0] {
+		case 's':
+			if k != nk(w.Latest, 1) || len(val) != 0 {
+				ver, non := unNK(k)
+				return w.viol("audit.drain", "after removing every key and pruning, node entry (%d,%d)=%x remains", ver, non, val)
+			}
+		case 'f':
+			if !w.Cfg.SkipFast {
+				return w.viol("audit.drain", "after removing every key, fast entry %q remains", k[1:])
+			}
+		}
+	}
+	w.Labels["drained"] = true
+	return nil
+}
+
+// checkKeyOrder (C13): node keys are big-endian (version, nonce) and therefore iterate numerically.
+func (w *World) checkKeyOrder() *Violation {
+	it, err := w.DB.Iterator([]byte("s"), []byte("t"))
+	if err != nil {
+		return w.viol("harness", "%v", err)
+	}
+	defer it.Close()
+	var pv int64 = -1
+	var pn uint32
+	for ; it.Valid(); it.Next() {
+		k := string(it.Key())
+		if len(k) != 13 {
+			return w.viol("format.key", "node key %x is not 13 bytes", k)
+		}
+		v, n := unNK(k)
+		if v < pv || (v == pv && n <= pn) {
+			return w.viol("format.key_order", "node keys do not sort numerically: (%d,%d) after (%d,%d)", v, n, pv, pn)
+		}
+		if v <= 0 {
+			return w.viol("format.key", "node key with version %d", v)
+		}
+		pv, pn = v, n
+	}
+	return nil
+}
+
+// checkLoadEach (C14): LoadVersion(v) on a throw-away handle succeeds exactly for retained versions and
+// leaves the handle usable.
+func (w *World) checkLoadEach() *Violation {
+	if w.Backend == "level" {
+		return nil
+	}
+	for _, v := range w.probeVersions() {
+		if v == 0 {
+			continue
+		}
+		tr := iavl.NewMutableTree(w.DB, 0, true, iavl.NewNopLogger())
+		_, err := tr.LoadVersion(v)
+		vs, ok := w.Vers[v]
+		if ok && err != nil {
+			return w.viol("versions.loadversion", "LoadVersion(%d) of a retained version failed: %v", v, err)
+		}
+		if !ok && err == nil {
+			return w.viol("versions.loadversion_unavailable", "LoadVersion(%d) succeeded but retained range is %d..%d", v, w.First, w.Latest)
+		}
+		if ok {
+			if h := tr.Hash(); !bytes.Equal(h, rhash(vs.Root, 0, false)) {
+				return w.viol("versions.loadversion_hash", "LoadVersion(%d) hash %x want %x", v, h, rhash(vs.Root, 0, false))
+			}
+		} else if w.Latest > 0 {
+			// still usable
+			if lv, err := tr.LoadVersion(w.Latest); err != nil || lv != w.Latest {
+				return w.viol("versions.usable_after_failed_load", "after failed LoadVersion(%d), LoadVersion(latest)=%d,%v", v, lv, err)
+			}
+		}
+	}
+	return nil
 }
